@@ -410,6 +410,11 @@ std::vector<int> Workload_Distribution(unsigned int workers, unsigned int tasks)
 
 unsigned int Locate_Closest_Location(const std::vector<double>& sorted_list, double target)
 {
+	if(sorted_list.empty())
+	{
+		std::cerr << "Error in libphysica::Locate_Closest_Location(): The list is empty." << std::endl;
+		std::exit(EXIT_FAILURE);
+	}
 	if(std::is_sorted(std::begin(sorted_list), std::end(sorted_list)) == false)
 	{
 		std::cerr << "Error in libphysica::Locate_Closest_Location(): The list is not sorted." << std::endl;
